@@ -63,14 +63,15 @@ def merge(total, by_key):
         ent[0] += n
 
 
-def replay(ctx, r, heavy_mod):
+def replay(ctx, results, heavy_mod, means_mod):
     def jobs():
         base = 0
-        for chunk in r.iter_lines(250):
-            yield (base, chunk, heavy_mod, ctx.seed)
-            base += len(chunk)
+        for r in results:
+            for chunk in r.iter_lines(250):
+                yield (base, chunk, heavy_mod, means_mod, ctx.seed)
+                base += len(chunk)
     tot = {'n': 0, 'evals': 0, 'nontriv': 0, 'var': 0, 'means': 0, 'fixed': 0, 'psd': 0, 'nonpsd': 0, 'heavy': 0,
-           'shapes': {}}
+           'perm_witness': 0, 'shapes': {}}
     found = {}
     with mp.Pool(16) as pool:
         for stats, by_key in pool.imap_unordered(V.replay_chunk, jobs()):
@@ -87,6 +88,8 @@ def replay(ctx, r, heavy_mod):
 def selftest_vector(r):
     """binding spec -> impl: a corrupted expected value must be noticed by the replay"""
     for rec in r.iter_emitted():
+        if 'inp' not in rec:
+            continue
         i = rec['inp']
         if i['kind'] == 'var' and i['k'] >= 2 and i['shape'] == 2:
             good, _ = V.check_var(rec, 0, heavy=False)
@@ -191,34 +194,43 @@ def run(ctx):
         'evaluations (0/0) excluded; bootstrap tests need >= 2 samples, rank-sum tests a 3-d array without all-NaN folds',
         'p-values compared through scipy.stats.t (trusted kernel) to 1e-10']
     if thorough:
-        c = cfg(2, [0, 2, 3, 7], 3, [1, 2], 1)
-        heavy_mod = 12
+        runs = [('variances_grid', cfg(2, [0, 3, 7], 3, [1, 2])),
+                # every symmetric 3 x 3 integer covariance with entries -2..3 (46 656 matrices)
+                ('variances_all3x3', cfg(3, [0, 3], 0, [1], perm=False))]
+        heavy_mod, means_mod = 40, 8
     else:
-        c = cfg(1, [0, 2, 5], 2, [1, 3], 1)
-        heavy_mod = 24
-    r = ctx.tlc('MC_Variances', c, name='variances_grid', timeout=1750, workers=16)
-    if not r.n_emitted:
-        raise MachineryError('TLC emitted no vectors')
+        runs = [('variances_grid', cfg(1, [0, 2, 5], 2, [1, 3]))]
+        heavy_mod, means_mod = 24, 1
+    results = []
+    for name, c in runs:
+        r = ctx.tlc('MC_Variances', c, name=name, timeout=1750, workers=16)
+        if not r.n_emitted:
+            raise MachineryError('TLC emitted no vectors')
+        results.append(r)
+    r = results[0]
     ctx.exhaustive = True
     selftest_vector(r)
     i = 0
     for chunk in r.iter_lines(1000):
         for line in chunk:
-            if i % max(1, r.n_emitted // 5) == 0:
+            if i % max(1, r.n_emitted // 5) == 0 and '"inp"' in line:
                 ctx.sample(json.loads(line))
-            i += 1
+                i += 1
+            elif i % max(1, r.n_emitted // 5) != 0:
+                i += 1
     t0 = time.time()
-    tot, found = replay(ctx, r, heavy_mod)
-    phases = {'tlc_grid_s': round(r.wall, 1), 'replay_s': round(time.time() - t0, 1)}
-    if tot['n'] != r.n_emitted:
-        raise MachineryError(f"replayed {tot['n']} of {r.n_emitted} vectors")
+    tot, found = replay(ctx, results, heavy_mod, means_mod)
+    phases = {'tlc_grid_s': round(sum(x.wall for x in results), 1), 'replay_s': round(time.time() - t0, 1)}
+    if tot['n'] + tot['perm_witness'] != sum(x.n_emitted for x in results):
+        raise MachineryError(f"replayed {tot['n']} of {sum(x.n_emitted for x in results)} vectors")
     missing = [s for s in CLASSES if not tot['shapes'].get(s)]
-    if missing or not tot['means'] or not tot['fixed'] or not tot['psd'] or not tot['nonpsd'] or not tot['heavy']:
+    if missing or not tot['means'] or not tot['fixed'] or not tot['psd'] or not tot['nonpsd'] or not tot['heavy'] \
+            or not tot['perm_witness']:
         raise MachineryError(f'vacuous run: {tot}, missing covariance classes {missing}')
     ctx.count(tot['evals'])
     ctx.nontrivial_extra += tot['nontriv']
     ctx.traces += tot['n']
-    ctx.extra['vectors_replayed'] = {k: tot[k] for k in ('n', 'var', 'means', 'fixed', 'heavy', 'psd', 'nonpsd')}
+    ctx.extra['vectors_replayed'] = {k: tot[k] for k in ('n', 'var', 'means', 'fixed', 'heavy', 'psd', 'nonpsd', 'perm_witness')}
     ctx.extra['covariance_classes'] = tot['shapes']
     report(ctx, found)
 
